@@ -285,6 +285,16 @@ def _impl_real(case):
         x = fresh(cls)
         w = weakref.ref(x)
         v = getattr(x, name)(*a, **kw)
+        if cls == 'Jumps':
+            try:
+                x.rates(10 ** 6)            # far more parts than events: rejected with ValueError; the rejection must not be what keeps x alive
+            except Exception:
+                pass
+        if cls == 'TrajectoryMetrics':
+            try:
+                x.tracer_conductivity(z_ion=1, dimensions=0)      # division by zero inside the formula
+            except Exception:
+                pass
         del v, x
         gc.collect()
         if w() is not None:
